@@ -252,7 +252,15 @@ pub fn alloc_free_totals() -> (u64, u64) {
 }
 /// Drop ledger entries of dead boxes (their memory stays quarantined, i.e. is leaked on purpose).
 pub fn forget_dead() {
-    with(|s| s.heap.retain(|_, e| e.live));
+    // in quarantine mode the released boxes are still allocated: give their memory back now
+    let dead: Vec<(usize, u8)> = with(|s| {
+        let d: Vec<(usize, u8)> = if s.shadow == ShadowMode::Quarantine { s.heap.iter().filter(|(_, e)| !e.live).map(|(a, e)| (*a, e.ty)).collect() } else { Vec::new() };
+        s.heap.retain(|_, e| e.live);
+        d
+    });
+    for (addr, ty) in dead {
+        unsafe { crate::object::verif_release_quarantined(addr, ty) };
+    }
 }
 pub fn clear_ledger() {
     with(|s| {
